@@ -8,6 +8,10 @@
     options.Unmarshal(dAtA[a:b], nested)     the nested message's own decoder (the same rules, by induction on nesting;
                                              for messages of other generators: protobuf-go, which copies)
     runtime.Skip(dAtA[a:]), binary.LittleEndian.Uint32/64(dAtA[a:]), for … range dAtA[a:b]     reads
+    runtime.F(dAtA[a:b]) for a helper F of the runtime package whose body never writes through that
+                                             parameter and whose results are of value types (or strings built by
+                                             `string(…)`, which copies): "helper-read"; the runtime package has no
+                                             package-level variable in which F could keep the slice (C03Code)
 
   — and the buffer a marshal closure returns (`input.Buf` / `dAtA`) is only ever bound to storage the closure made
   itself (make, append onto its own buffer), never to storage of the message. Hence no byte slice stored in a
@@ -22,7 +26,7 @@ namespace Pulsar
 open ExtractedCode
 
 def copyingOrReadingForms : List String :=
-  ["append-copy", "copy-copy", "fixed-read", "nested-decode", "range-read", "skip-read", "string-copy"]
+  ["append-copy", "copy-copy", "fixed-read", "helper-read", "nested-decode", "range-read", "skip-read", "string-copy"]
 
 theorem C07_extracted_input_flows_copy :
     inputFlowOther = [] ∧ (∀ k ∈ inputFlowKinds, k ∈ copyingOrReadingForms) ∧ errors = [] := by decide
